@@ -32,7 +32,8 @@ pub struct TaskStat {
 }
 
 pub struct Shared {
-  pub log: Mutex<Vec<Ev>>,
+  /// (event, number of shim trace lines recorded before it)
+  pub log: Mutex<Vec<(Ev, usize)>>,
   pub stats: Vec<TaskStat>,
 }
 
@@ -44,7 +45,8 @@ impl Shared {
     }
   }
   fn push(&self, e: Ev) {
-    self.log.lock().unwrap_or_else(|e| e.into_inner()).push(e);
+    let pos = rt::trace_len();
+    self.log.lock().unwrap_or_else(|e| e.into_inner()).push((e, pos));
   }
 }
 
@@ -70,6 +72,7 @@ impl Wake for TaskWaker {
   fn wake_by_ref(self: &Arc<Self>) {
     if let Some((sh, tid)) = &self.shared {
       sh.stats[*tid].wakes.fetch_add(1, Ordering::Relaxed);
+      rt::note("wake", &format!("t{}", tid));
     }
     self.thread.unpark();
   }
@@ -97,14 +100,22 @@ pub fn block_on<F: Future>(f: F) -> F::Output {
 /// Waker for manual-poll futures: only counts.
 pub struct CountWaker {
   pub wakes: AtomicUsize,
+  pub name: String,
+}
+
+impl CountWaker {
+  pub fn new(name: &str) -> Arc<CountWaker> {
+    Arc::new(CountWaker { wakes: AtomicUsize::new(0), name: name.to_string() })
+  }
 }
 
 impl Wake for CountWaker {
   fn wake(self: Arc<Self>) {
-    self.wakes.fetch_add(1, Ordering::Relaxed);
+    self.wake_by_ref();
   }
   fn wake_by_ref(self: &Arc<Self>) {
     self.wakes.fetch_add(1, Ordering::Relaxed);
+    rt::note("wake", &self.name);
   }
 }
 
@@ -177,8 +188,8 @@ impl Env {
         match h.make_fut(op) {
           Some(fut) => {
             self.futs.insert(
-              f,
-              FutSlot { fut: Some(fut), handle: hn, cw: Arc::new(CountWaker { wakes: AtomicUsize::new(0) }), done: false },
+              f.clone(),
+              FutSlot { fut: Some(fut), handle: hn, cw: CountWaker::new(&f), done: false },
             );
             "ok".into()
           }
@@ -376,6 +387,8 @@ fn handle_uses(prog: &[Op]) -> Vec<String> {
 
 pub struct RunResult {
   pub events: Vec<Ev>,
+  /// per event: number of shim trace lines that precede it
+  pub apos: Vec<usize>,
   pub outcome: rt::Outcome,
   /// (polls, wakes) per tid as seen at the end (meaningful at deadlock)
   pub stats: Vec<(usize, usize)>,
@@ -395,7 +408,8 @@ pub fn run_case(case: &Case, cfg: rt::Config) -> RunResult {
         if o != t {
           return RunResult {
             events: Vec::new(),
-            outcome: rt::Outcome { status: rt::Status::Ok, decisions: Vec::new(), steps: 0, diverged: false, threads: 0 },
+            apos: Vec::new(),
+            outcome: rt::Outcome { status: rt::Status::Ok, decisions: Vec::new(), steps: 0, diverged: false, threads: 0, trace: Vec::new() },
             stats: Vec::new(),
             invalid: Some(format!("handle-{}-used-by-threads-{}-and-{}", n, o, t)),
             drops: Vec::new(),
@@ -463,9 +477,11 @@ pub fn run_case(case: &Case, cfg: rt::Config) -> RunResult {
     run_ops(&mut env, &sh, 0, &ops);
     drop(env);
   });
-  let events = sh.log.lock().unwrap_or_else(|e| e.into_inner()).clone();
+  let logged = sh.log.lock().unwrap_or_else(|e| e.into_inner()).clone();
+  let events: Vec<Ev> = logged.iter().map(|(e, _)| e.clone()).collect();
+  let apos: Vec<usize> = logged.iter().map(|(_, p)| *p).collect();
   let stats = sh.stats.iter().map(|s| (s.polls.load(Ordering::Relaxed), s.wakes.load(Ordering::Relaxed))).collect();
   let drops = if outcome.status == rt::Status::Ok { val::snapshot() } else { Vec::new() };
   let invalid = invalid.lock().unwrap().clone();
-  RunResult { events, outcome, stats, invalid, drops }
+  RunResult { events, apos, outcome, stats, invalid, drops }
 }
